@@ -504,7 +504,7 @@ Proof.
   intros Hm Hf Hv Hmax Hl. pose proof (parse_offset_decimal n Hmax) as Hp. rewrite <- Hv in Hp.
   destruct (n =? 0) eqn:E0.
   - apply mf_zero_local; [exact Hm|]. unfold mf_first, entry_int64. rewrite Hf, Hp. lia.
-  - apply single_mf_decremented; try assumption. lia.
+  - apply (single_mf_decremented c m major minor nocache hs e (Z.of_N n)); try assumption. lia.
 Qed.
 
 (* beyond int64 the field is dropped, not decremented: OPTIONS with Max-Forwards: 9223372036854775808 *)
